@@ -22,16 +22,21 @@ def run(ctx):
     pdir, plans = ctx.tlc_plans(fam, "IdGen_Gen", "IdGen_Gen.cfg", num=ctx.q(12, 150), depth=26)
     binary = ctx.go_build("c06")
     seqf, concf = ctx.path("seq.ndjson"), ctx.path("conc.ndjson")
-    ctx.harness(binary, ["-plans", pdir, "-out", seqf, "-conc", concf, "-seed", ctx.seed,
+    out = ctx.harness(binary, ["-plans", pdir, "-out", seqf, "-conc", concf, "-seed", ctx.seed,
                          "-hist", ctx.q(300, 4000), "-burst", ctx.q(4, 40), "-batch", ctx.q(3, 30),
                          "-mono", ctx.q(3, 12), "-monocalls", ctx.q(9000, 20000),
-                         "-nano", ctx.q(40, 600), "-nconc", ctx.q(12, 90), "-perg", ctx.q(150, 250)],
+                         "-nano", ctx.q(40, 600), "-nconc", ctx.q(16, 96), "-perg", ctx.q(150, 200)],
                 traces=[seqf, concf])
     seq = ctx.load_traces(seqf)
     conc = ctx.load_traces(concf)
     rj = ctx.validate(fam, "IdGen_Trace", "IdGen_Trace.cfg", seq, label="sequential+plans", chunk=150000)
     rj += ctx.validate(fam, "IdGen_Trace", "IdGen_Trace.cfg", conc, label="free-running", chunk=40000)
     ctx.judge(rj)
+    import re
+    ctx.extra["free_running_overlap"] = {
+        m.group(1): {"calls": int(m.group(2)), "overlapped_with_another_call": int(m.group(3)),
+                     "max_simultaneously_pending": int(m.group(4))}
+        for m in re.finditer(r"overlap kind=(\w+) calls=(\d+) overlapped=(\d+) maxpending=(\d+)", out)}
     ctx.extra["plans"] = len(plans)
     ctx.extra["sequential_and_plan_traces"] = len(seq)
     ctx.extra["free_running_traces"] = len(conc)
@@ -47,8 +52,12 @@ def run(ctx):
         "- 2^20); readings before the epoch are included",
         "plans: global quiescence from runtime.Stack wait reasons (internal/qx); the clock hook blocks the "
         "caller inside Generate, later callers park on the node mutex",
-        "free-running: inv/res/clk logged under one mutex outside the generator's lock; the reading a call "
-        "obtained is one of those in force between its inv and res",
+        "free-running: 4-16 goroutines released by a spin barrier; every call takes a global atomic sequence "
+        "number right before it is invoked and right after it returned (outside the generator's lock), "
+        "per-goroutine buffers are merged by sequence number; one mover goroutine changes HardNode's clock, "
+        "logging min(old,new) when a change begins and new when it is complete; nano: GenID (real clock), "
+        "GenIDByTS and mixed, generator starting at 0 / now / ahead of the clock; overlap statistics in "
+        "coverage.free_running_overlap",
         "MonoNode reads the runtime's monotonic clock and cannot be given a trajectory: driven with tight "
         "loops (>4096 calls per ms, spin path) and concurrent callers only",
     ]
